@@ -155,7 +155,7 @@ Verdict binderProp(Ctx& c) {
 
 int main(int argc, char** argv) {
   std::vector<pbt::Prop> props;
-  props.push_back({"accepted_evaluates_safely", soundProp, 2000, 50000, false, false, "generated expressions and near-miss mutants; accepted ones evaluated under 2-3 data contexts"});
-  props.push_back({"binder_confusion", binderProp, 1000, 30000, false, false, "binders of every pattern form over sets of tuples; variable uses swapped; accepted ones evaluated"});
+  props.push_back({"accepted_evaluates_safely", soundProp, 2000, 14000, false, false, "generated expressions and near-miss mutants; accepted ones evaluated under 2-3 data contexts"});
+  props.push_back({"binder_confusion", binderProp, 1000, 8000, false, false, "binders of every pattern form over sets of tuples; variable uses swapped; accepted ones evaluated"});
   return pbt::main(argc, argv, "C02", props);
 }
